@@ -200,47 +200,141 @@ Proof. vm_compute. split; reflexivity. Qed.
 
 Definition w_fresh : needle := w_needle 9 7 [102; 114; 101; 115; 104] 0.
 
+(* further operations on the reopened volume: rewrite of key 1 (deleted in the history), delete of
+   key 2, a fresh key, the same bytes again (unchanged), key 1 with another cookie (refused) *)
+Definition w_post : list op :=
+  [ Write (w_needle 1 17 [97; 103; 97; 105; 110] 0);
+    Delete 2 305419896 0;
+    Write w_fresh;
+    Write w_fresh;
+    Write (w_needle 1 81 [110; 111] 0) ].
+
 (* the crash point of the repaired finding c03-tombstone-tail-readonly: three index entries
    survive (the last one is the tombstone of key 1) and the data file holds five more bytes, the
-   beginning of the fourth record.  The tail is cut, the volume is writable, key 1 stays deleted. *)
+   beginning of the fourth record.  The tail is cut, the volume is writable, key 1 stays deleted;
+   it serves the further operations; stopped again with the last index entry torn (9 bytes
+   missing), it comes up with five entries, the record of key 9 behind them is cut off. *)
 Lemma witness_tombstone_tail :
   admissible (p_run w_history) 133 48 = true /\ tombstone_tail (p_run w_history) 133 48 = true /\
-  observe toy_crc (crash (p_run w_history) 133 48) [1; 2; 3] w_fresh =
+  observe toy_crc (crash (p_run w_history) 133 48) [1; 2; 9] w_post 9 =
     {| o_load := 0; o_readonly := false; o_dat_len := 128; o_idx_len := 48;
        o_reads := [(2, 0, []); (0, 305419896, [119; 111; 114; 108; 100; 33; 33]); (1, 0, [])];
-       o_write := 0; o_fresh := (0, 7, [102; 114; 101; 115; 104]); o_dat_len2 := 168; o_idx_len2 := 64 |}.
+       o_post := [(0, 0%Z); (0, 12%Z); (0, 0%Z); (1, 0%Z); (3, 0%Z)];
+       o_reads2 := [(0, 17, [97; 103; 97; 105; 110]); (2, 0, []); (0, 7, [102; 114; 101; 115; 104])];
+       o_dat_len2 := 240; o_idx_len2 := 96; o_load3 := 0; o_readonly3 := false;
+       o_reads3 := [(0, 17, [97; 103; 97; 105; 110]); (2, 0, []); (1, 0, [])];
+       o_dat_len3 := 200; o_idx_len3 := 80 |}.
 Proof. vm_compute. repeat split; reflexivity. Qed.
 
-(* the same with a whole fourth record behind the tombstone *)
+(* the same with a whole fourth record behind the tombstone, and a clean second stop *)
 Lemma witness_tombstone_then_record :
   admissible (p_run w_history) 176 48 = true /\ tombstone_tail (p_run w_history) 176 48 = true /\
-  observe toy_crc (crash (p_run w_history) 176 48) [1; 2; 3] w_fresh =
+  observe toy_crc (crash (p_run w_history) 176 48) [1; 2; 9] w_post 0 =
     {| o_load := 0; o_readonly := false; o_dat_len := 128; o_idx_len := 48;
        o_reads := [(2, 0, []); (0, 305419896, [119; 111; 114; 108; 100; 33; 33]); (1, 0, [])];
-       o_write := 0; o_fresh := (0, 7, [102; 114; 101; 115; 104]); o_dat_len2 := 168; o_idx_len2 := 64 |}.
+       o_post := [(0, 0%Z); (0, 12%Z); (0, 0%Z); (1, 0%Z); (3, 0%Z)];
+       o_reads2 := [(0, 17, [97; 103; 97; 105; 110]); (2, 0, []); (0, 7, [102; 114; 101; 115; 104])];
+       o_dat_len2 := 240; o_idx_len2 := 96; o_load3 := 0; o_readonly3 := false;
+       o_reads3 := [(0, 17, [97; 103; 97; 105; 110]); (2, 0, []); (0, 7, [102; 114; 101; 115; 104])];
+       o_dat_len3 := 240; o_idx_len3 := 96 |}.
 Proof. vm_compute. repeat split; reflexivity. Qed.
 
 (* the crash point of the repaired finding c03-torn-index-entry-panic: the second index entry is
-   torn after 7 bytes.  The torn bytes are dropped and the volume comes up with one entry. *)
+   torn after 7 bytes.  The torn bytes are dropped and the volume comes up with one entry; the
+   delete of key 2 (whose record lies behind the cut) finds nothing. *)
 Lemma witness_torn_index :
   admissible (p_run w_history) 96 23 = true /\ torn_index 23 = true /\
-  observe toy_crc (crash (p_run w_history) 96 23) [1; 2; 3] w_fresh =
+  observe toy_crc (crash (p_run w_history) 96 23) [1; 2; 9] w_post 0 =
     {| o_load := 0; o_readonly := false; o_dat_len := 48; o_idx_len := 16;
        o_reads := [(0, 17, [104; 101; 108; 108; 111]); (1, 0, []); (1, 0, [])];
-       o_write := 0; o_fresh := (0, 7, [102; 114; 101; 115; 104]); o_dat_len2 := 88; o_idx_len2 := 32 |}.
+       o_post := [(0, 0%Z); (0, 0%Z); (0, 0%Z); (1, 0%Z); (3, 0%Z)];
+       o_reads2 := [(0, 17, [97; 103; 97; 105; 110]); (1, 0, []); (0, 7, [102; 114; 101; 115; 104])];
+       o_dat_len2 := 128; o_idx_len2 := 48; o_load3 := 0; o_readonly3 := false;
+       o_reads3 := [(0, 17, [97; 103; 97; 105; 110]); (1, 0, []); (0, 7, [102; 114; 101; 115; 104])];
+       o_dat_len3 := 128; o_idx_len3 := 48 |}.
 Proof. vm_compute. repeat split; reflexivity. Qed.
 
 (* one more crash point of the same history: two index entries, the data file cut nine bytes
-   into the tombstone's record *)
+   into the tombstone's record; the second stop loses the last index entry whole *)
 Lemma witness_torn_record :
   admissible (p_run w_history) 105 32 = true /\
-  observe toy_crc (crash (p_run w_history) 105 32) [1; 2; 3] w_fresh =
+  observe toy_crc (crash (p_run w_history) 105 32) [1; 2; 9] w_post 16 =
     {| o_load := 0; o_readonly := false; o_dat_len := 96; o_idx_len := 32;
        o_reads := [(0, 17, [104; 101; 108; 108; 111]); (0, 305419896, [119; 111; 114; 108; 100; 33; 33]); (1, 0, [])];
-       o_write := 0; o_fresh := (0, 7, [102; 114; 101; 115; 104]); o_dat_len2 := 136; o_idx_len2 := 48 |}.
+       o_post := [(0, 0%Z); (0, 12%Z); (0, 0%Z); (1, 0%Z); (3, 0%Z)];
+       o_reads2 := [(0, 17, [97; 103; 97; 105; 110]); (2, 0, []); (0, 7, [102; 114; 101; 115; 104])];
+       o_dat_len2 := 208; o_idx_len2 := 80; o_load3 := 0; o_readonly3 := false;
+       o_reads3 := [(0, 17, [97; 103; 97; 105; 110]); (2, 0, []); (1, 0, [])];
+       o_dat_len3 := 168; o_idx_len3 := 64 |}.
 Proof. vm_compute. repeat split; reflexivity. Qed.
 
 (* a crash point that write order excludes (the index is ahead of the data: two entries, the
    second record missing) is outside the theorem; the safety half still covers it *)
 Lemma not_admissible_example : admissible (p_run w_history) 60 32 = false.
 Proof. vm_compute. reflexivity. Qed.
+
+(* ---------- finding 0: an empty blob does not come back ---------- *)
+(* the payload may be empty *)
+Definition wf_any (crc : list N -> N) (o : op) : Prop :=
+  match o with
+  | Write n => rec_ok n /\ checksum n = crc (data n)
+  | Delete k c ts => k < 2 ^ 64 /\ c < 2 ^ 32 /\ ts < 2 ^ 64
+  end.
+
+Lemma is_nil_false : forall A (l : list A), is_nil l = false -> l <> [].
+Proof. intros A [|x l] H; [discriminate|discriminate]. Qed.
+
+Lemma wf_any_op : forall crc h, Forall (wf_any crc) h -> has_empty_write h = false -> Forall (wf_op crc) h.
+Proof.
+  intros crc h. induction h as [|o h IH]; intros Hw He; [constructor|].
+  inversion Hw as [|? ? Ho Hh]; subst. cbn [has_empty_write existsb] in He. apply orb_false_iff in He.
+  destruct He as [He1 He2]. constructor; [|apply IH; assumption].
+  destruct o as [n|k c ts]; [|exact Ho]. destruct Ho as [H1 H2].
+  split; [assumption|]. split; [apply is_nil_false; assumption|assumption].
+Qed.
+
+(* hello / EMPTY / x, stopped cleanly (harness case 2) *)
+Definition w_empty_history : list op :=
+  [ Write (w_needle 1 17 [104; 101; 108; 108; 111] 1000);
+    Write (w_needle 2 305419896 [] 2000);
+    Write (w_needle 3 4294967283 [120] 3000) ].
+
+Lemma w_empty_history_wf : Forall (wf_any toy_crc) w_empty_history.
+Proof.
+  repeat constructor; try discriminate;
+    unfold ranges_ok; vm_compute; repeat split; try reflexivity; discriminate.
+Qed.
+
+(* the volume is stopped with both files whole: the running volume answered (0, nil) for key 2
+   (class 3), the reopened one does not know the key (class 1); the other keys are as before *)
+Lemma witness_empty_blob :
+  admissible (p_run w_empty_history) 120 48 = true /\
+  len (p_dat (p_run w_empty_history)) = 120 /\ len (p_idx (p_run w_empty_history)) = 3 /\
+  empty_live (p_run w_empty_history) 2 = true /\ key_has_empty_write w_empty_history 2 = true /\
+  map (fun k => rres_proj (p_read (p_run w_empty_history) k)) [1; 2; 3] =
+    [(0, 17, [104; 101; 108; 108; 111]); (3, 0, []); (0, 4294967283, [120])] /\
+  o_reads (observe toy_crc (crash (p_run w_empty_history) 120 48) [1; 2; 3] [] 0) =
+    [(0, 17, [104; 101; 108; 108; 111]); (1, 0, []); (0, 4294967283, [120])].
+Proof. vm_compute. repeat split; reflexivity. Qed.
+
+(* REFUTED: with empty payloads allowed the full statement fails, at a clean stop *)
+Theorem crash_safe_refuted : exists crc h dcut icut, Forall (wf_any crc) h /\
+  admissible (p_run h) dcut icut = true /\ ~ crash_safe_at crc h dcut icut.
+Proof.
+  exists toy_crc, w_empty_history, 120, 48. split; [exact w_empty_history_wf|]. split; [vm_compute; reflexivity|].
+  intros [h1 [h2 [L [Hh [Hlen [Hload [_ [Hr _]]]]]]]].
+  (* three index entries survive: h1 is the whole history *)
+  assert (E1 : h1 = w_empty_history).
+  { destruct h2 as [|o2 h2]; [rewrite app_nil_r in Hh; congruence|]. exfalso.
+    change (48 / NeedleMapEntrySize) with 3 in Hlen.
+    destruct h1 as [|a [|b [|c [|d h1]]]]; cbn in Hh; inversion Hh; subst; try (vm_compute in Hlen; discriminate).
+    destruct h1; discriminate. }
+  subst h1. specialize (Hr 2).
+  assert (EL : load toy_crc (crash (p_run w_empty_history) 120 48) = Loaded L) by exact Hload.
+  vm_compute in EL. inversion EL; subst L. vm_compute in Hr. discriminate.
+Qed.
+
+(* PARTIAL: histories that store no empty blob (decidable) *)
+Theorem crash_safe_partial : forall crc h dcut icut, Forall (wf_any crc) h -> has_empty_write h = false ->
+  admissible (p_run h) dcut icut = true -> crash_safe_at crc h dcut icut.
+Proof. intros crc h dcut icut Hw He. apply crash_safe. apply wf_any_op; assumption. Qed.
